@@ -215,7 +215,7 @@ Proof. intros. eapply never_read_oversize; eassumption. Qed.
 Theorem C17_oversize_rejected_first :
   forall (cap id : Z) (d : dir) (f : file),
     d id = Some f -> f_len f > cap -> read_artifact_file cap id d = ([EvStat id], Err E_SIZE).
-Proof. intros. apply read_oversize; assumption. Qed.
+Proof. intros. eapply read_oversize; eassumption. Qed.
 
 (* ---------------------------------------------------------------- non-vacuity *)
 Definition ex_keccak (b : bytes) : bytes := [Z.of_nat (length b); nth 0 b 0].
